@@ -165,8 +165,8 @@ CLAIMED = {
                      'solveEquationForFunction, degrees 4-5, FFT stages. The solver uses the first cell\'s half width for every cell (uniform radial breaks assumed by the code; the oracle mirrors this).'),
     'C15': dict(
         category='proof',
-        technique='symbolic execution of the real quasi-neutrality pipeline (getModes, solveEquation, findPotential, layout changes) on a symbolic real density with the FFT replaced by the exact DFT (ntheta 4 and 3; thorough also 2 and 6; twiddles in Q(i, sqrt 3) with sqrt3^2=3 as a solver constraint); z3 identities against an independent mode-by-mode reference',
-        text='PARTIAL, in exact arithmetic and for ntheta in {4, 3} (thorough also 2, 6; exact twiddle factors in Q(i) resp. Q(i, sqrt 3), so one even and one odd theta count, with and without a Nyquist mode): for all real densities the potential produced '
+        technique='symbolic execution of the real quasi-neutrality pipeline (getModes, solveEquation, findPotential, layout changes) on a symbolic real density with the FFT replaced by the exact DFT (ntheta 4, 3 and 12; thorough also 2 and 6; twiddles in Q(i, sqrt 3) with sqrt3^2=3 as a solver constraint); z3 identities against an independent mode-by-mode reference',
+        text='PARTIAL, in exact arithmetic and for ntheta in {4, 3, 12} (thorough also 2, 6; exact twiddle factors in Q(i) resp. Q(i, sqrt 3), so one even and one odd theta count, with and without a Nyquist mode): for all real densities the potential produced '
              'by density -> modes -> per-mode solve -> inverse transform equals the one computed mode by mode by an independent '
              'implementation (FFT-ordered mode numbers, m^2, inner Neumann condition for m=0 only, chi convention for the m=0 mode, '
              'adiabatic response on all other modes, kinetic electrons without it), on every rank of the listed process grids, and its '
